@@ -9,6 +9,7 @@ import (
 	"os"
 	"runtime/debug"
 	"sort"
+	"strconv"
 	"strings"
 	"time"
 
@@ -62,12 +63,12 @@ type RunResult struct {
 	maxSamples  int
 	harness     *HarnessSpec
 	params      []int
-	distinctObl map[int]bool // ids of distinct non-constant obligation terms
+	distinctObl map[string]bool // distinct (label, obligation term, path condition) triples decided under a symbolic path condition
 }
 
 func newRunResult() *RunResult {
 	return &RunResult{Obl: map[string]*OblStat{}, Covers: map[string]int{}, CoverWitness: map[string]map[string]uint64{}, PathStatus: map[string]int{},
-		candSeen: map[string]int{}, Unsupported: map[string]int{}, Bounds: map[string]int{}, distinctObl: map[int]bool{}, maxSamples: 8}
+		candSeen: map[string]int{}, Unsupported: map[string]int{}, Bounds: map[string]int{}, distinctObl: map[string]bool{}, maxSamples: 8}
 }
 
 func (r *RunResult) stat(label, kind string) *OblStat {
@@ -131,6 +132,9 @@ func (e *Engine) vectorOf(st *State, model map[string]uint64) map[string]uint64 
 func (r *RunResult) obligation(e *Engine, st *State, c *Term, label, kind string) {
 	s := r.stat(label, kind)
 	s.Checked++
+	if len(st.pc) > 0 || !c.IsConst() {
+		r.distinctObl[label+"|"+strconv.Itoa(c.id)+"|"+keyOf(st.pc)] = true
+	}
 	if c.IsTrue() {
 		s.Trivial++
 		return
@@ -139,7 +143,6 @@ func (r *RunResult) obligation(e *Engine, st *State, c *Term, label, kind string
 		s.Trivial++
 		return
 	}
-	r.distinctObl[c.id] = true
 	if n := termSize(c, map[int]bool{}); n > s.MaxTerms {
 		s.MaxTerms = n
 	}
